@@ -114,6 +114,7 @@ where
         w.pid = 10_000 + (env.hash_seed % 50_000) as i32;
         // (inside a long-lived process the monotonic clock goes on; it never jumps back)
         w.mono_ns = if continuing { SESSION_MONO.with(|c| c.get()) + (1 + env.hash_seed % 7_200) * 1_000_000_000 } else { (3_600 + env.hash_seed % 86_400) * 1_000_000_000 };
+        w.real_mono_start_ns = crate::interpose::real_monotonic_ns();
         w.latency_seed = env.hash_seed;
         w.requests_timed = 0;
         w.unmodelled.clear();
@@ -197,7 +198,8 @@ where
     };
     crate::interpose::set_process_running(false);
     if matches!(env.session, Some(id) if id != u64::MAX) {
-        let m = with_world(|w| w.mono_ns);
+        let real = crate::interpose::real_monotonic_ns();
+        let m = with_world(|w| w.mono_ns + real.saturating_sub(w.real_mono_start_ns));
         SESSION_MONO.with(|c| c.set(m));
     }
     with_world(|w| {
